@@ -61,6 +61,12 @@ ResOK(r, z) == IF r.skip THEN ~IsFin(z[1])
                ELSE /\ IsFin(r.v) /\ IsFin(r.r) /\ IsFin(r.b)
                     /\ RSign(Obs(r.v)) > 0 /\ RLe(Obs(r.r), Obs(r.b))
 
+(* An infinite multiplier (mu = 0 exactly: a mode in the null space of KG, returned as +-1e15..inf) has no
+   residual in the lambda form: || K v + lambda KG v || ~ ||K v|| stays finite while the admissible error
+   2^-30 |lambda| ||KG|| ||v|| depends on how large the stand-in for infinity came out.  Its value clause
+   (|-1/lambda| <= 2^-30 max|mu|) is what is demanded. *)
+InfiniteMultiplier(s, c) == IsLb(s.o.api) /\ s.vals[c].id # 0 /\ RIsZero(Mu(s.p, s.vals[c].id))
+
 (* ordering on the observed numbers themselves (the claimed part of the list) *)
 ObsRe(z) == Obs(z[1])
 LbObsOrder(s, o) ==
@@ -92,7 +98,7 @@ Mismatch(s, e) ==
        ELSE IF ~(\A j \in 1..Len(o.nzrows) : o.nzrows[j] \in support) THEN "zero-pattern"
        ELSE IF \E c \in 1..o.nvals : ~ValClose(s, o.vals[c], s.vals[c], scale) THEN "values"
        ELSE IF \E c \in 1..Min2(o.nvals, nc) :
-                    ~s.unspec /\ ~ResOK(o.res[c], o.vals[c]) THEN "residual"
+                    ~s.unspec /\ ~InfiniteMultiplier(s, c) /\ ~ResOK(o.res[c], o.vals[c]) THEN "residual"
        ELSE IF ~LbObsOrder(s, o) \/ ~FreqObsOrder(s, o) THEN "ordering"
        ELSE IF ~PeerOK(s, o, scale) THEN "path-agreement"
        ELSE ""
